@@ -40,6 +40,10 @@ type SN struct {
 	M    map[string]*SN
 	Arr  [2]*SN
 	Ms   []map[string]*SN
+	Grid [][2]*SN          // arrays NESTED in a slice,
+	Box  [1][2]*SN         // in an array,
+	Rows [2][]*SN          // slices nested in an array,
+	MArr map[string][2]*SN // and arrays as map values
 	Ch   chan int
 	priv int
 }
@@ -363,6 +367,26 @@ func buildSN(g *gen, n int) []*SN {
 				}
 			}
 		}
+		if r.Chance(1, 3) {
+			k := 1 + r.Intn(2)
+			nd.Grid = make([][2]*SN, k, k+r.Intn(2))
+			full := nd.Grid[:cap(nd.Grid)]
+			for j := range full {
+				full[j] = [2]*SN{pick(i), pick(i)}
+			}
+		}
+		if r.Chance(1, 3) {
+			nd.Box = [1][2]*SN{{pick(i), pick(i)}}
+		}
+		if r.Chance(1, 4) {
+			nd.Rows = [2][]*SN{{pick(i)}, nil}
+			if r.Chance(1, 2) {
+				nd.Rows[1] = nd.Rows[0] // the same slice twice
+			}
+		}
+		if r.Chance(1, 4) {
+			nd.MArr = map[string][2]*SN{"p": {pick(i), pick(i)}}
+		}
 		if r.Chance(1, 4) {
 			k := 1 + r.Intn(2)
 			nd.Ms = make([]map[string]*SN, k, k+r.Intn(2))
@@ -420,7 +444,19 @@ func buildIN(g *gen, n int) []*IN {
 		if g.r.Chance(g.pnil, 8) {
 			return nil
 		}
-		switch r.Intn(19) {
+		switch r.Intn(21) {
+		case 19:
+			t := g.target(i, n)
+			if t < 0 {
+				t = i
+			}
+			return [1][2]*IN{{nodes[t], nodes[i]}} // an array nested in an array, as interface payload
+		case 20:
+			t := g.target(i, n)
+			if t < 0 {
+				t = i
+			}
+			return [][2]*IN{{nodes[t], nil}}
 		case 14:
 			return ints[r.Intn(2)]
 		case 15:
@@ -1005,7 +1041,7 @@ func main() {
 	}()
 	driver.Main(driver.Engine{
 		Prop: "C03", CoqImport: "Dials.Check.C03Check", CoqRun: "run_cases",
-		Rule: "random object graphs over the node types SN{MM map[string]map[string]*SN; Kids []*SN; M map[string]*SN; Arr [2]*SN; Ms []map[string]*SN; Ch chan int; priv int} (inner maps of MM shared with M / Ms), " +
+		Rule: "random object graphs over the node types SN{MM map[string]map[string]*SN; Kids []*SN; M map[string]*SN; Arr [2]*SN; Ms []map[string]*SN; Grid [][2]*SN; Box [1][2]*SN; Rows [2][]*SN; MArr map[string][2]*SN; Ch chan int; priv int} (inner maps of MM shared with M / Ms), " +
 			"IN{PI *int; PL *[]interface{}; PM *map[string]interface{}; Any interface{}; Anys []interface{}; MA map[string]interface{}} (payloads: *IN, typed nil pointers, *SN, shared maps, slices, struct and array values, and pointers to non-structs *int / *string / *[]interface{} / *map[string]interface{} shared with the typed fields and with each other, also cyclic) " +
 			"and PN{Next, Other *PN}; nil-probability of a reference swept over {1,2,3,5,7}/8, three target styles (self/back/anywhere, no self references, mostly the next node); shared maps, " +
 			"shared and offset slices; each graph goes through VerifDeepCopy (root handed over as pointer, map, slice or struct value) or through dials.Config(ctx,&root)+View in a child process; " +
